@@ -63,6 +63,9 @@ type timestampOracle struct {
 	maxResetTSGap          func() time.Duration
 	// tso info stored in the memory
 	tsoMux *tsoObject
+	// updateMu serializes UpdateTimestamp and resetUserTimestamp, so that a time window
+	// computed from a stale reading can never be saved after a newer, larger one.
+	updateMu sync.Mutex
 	// last timestamp window stored in etcd
 	lastSavedTime atomic.Value // stored as time.Time
 	suffix        int
@@ -234,6 +237,8 @@ func (t *timestampOracle) isInitialized() bool {
 // When ignoreSmaller is true, resetUserTimestamp will ignore the smaller tso resetting error and do nothing.
 // It's used to write MaxTS during the Global TSO synchronization whitout failing the writing as much as possible.
 func (t *timestampOracle) resetUserTimestamp(leadership *election.Leadership, tso uint64, ignoreSmaller bool) error {
+	t.updateMu.Lock()
+	defer t.updateMu.Unlock()
 	t.tsoMux.Lock()
 	defer t.tsoMux.Unlock()
 	if !leadership.Check() {
@@ -294,6 +299,8 @@ func (t *timestampOracle) resetUserTimestamp(leadership *election.Leadership, ts
 // 2. The physical time is monotonically increasing.
 // 3. The physical time is always less than the saved timestamp.
 func (t *timestampOracle) UpdateTimestamp(leadership *election.Leadership) error {
+	t.updateMu.Lock()
+	defer t.updateMu.Unlock()
 	prevPhysical, prevLogical := t.getTSO()
 	tsoGauge.WithLabelValues("tso", t.dcLocation).Set(float64(prevPhysical.UnixNano() / int64(time.Millisecond)))
 	tsoGap.WithLabelValues(t.dcLocation).Set(float64(time.Since(prevPhysical).Milliseconds()))
